@@ -115,7 +115,8 @@ theorem stages_notSaves {cfg : Cfg} (wf : WF cfg) (hm : cfg.fromSaves = true) (o
     · intro e he; simp [eventsOf] at he
     · exact rmAll_paths _ _ (fun p hp => isLock_notSaves (lockList_isLock cfg fs' p hp))
   · -- params
-    intro e he; unfold paramsStage at he; cases rs <;> simp [eventsOf, evs] at he <;> rcases he with rfl | rfl <;> rfl
+    intro e he; unfold paramsStage paramsEvs at he
+    cases rs <;> simp [fixed, eventsOf, evs] at he <;> rcases he with rfl | rfl | rfl | rfl <;> rfl
   · -- reference unpacked
     intro e he
     have hp := refStage_paths fixed cfg rs fs' e he
